@@ -255,8 +255,8 @@ func (x *Exec) jsonUnmarshal(fr *Frame, st *State, ins ssa.Instruction, sig *typ
 				switch et := pt.Elem().Underlying().(type) {
 				case *types.Slice:
 					// *[]T: on success the target holds a newly allocated slice
-					ns := x.freshVal(st, "decoded", pt.Elem())
 					arr := x.newRef(st)
+					ns := x.freshVal(st, "decoded", pt.Elem())
 					x.assume(st, And(Eq(sArr(ns.T), arr), Eq(sOff(ns.T), Int(0)), Ge(sCap(ns.T), sLen(ns.T))))
 					if b, isB := et.Elem().Underlying().(*types.Basic); isB && b.Kind() == types.String {
 						key, hs := elemHeapKey(et.Elem())
